@@ -1536,7 +1536,21 @@ func (x *Exec) builtinModel(fr *Frame, st *State, fn *ssa.Function, name string,
 		"(time.Time).Sub", "(time.Duration).String":
 		model()
 		st.events = append(st.events, name)
+		if name == "time.Sleep" {
+			if cnt, ok := st.ghost["sleeps"].(*Term); ok {
+				st.ghost["sleeps"] = tb.BVBin("bvadd", cnt, tb.BVi(64, 1))
+			}
+		}
 		if name == "time.After" || name == "time.NewTimer" {
+			// ghost record of when the timer was armed: after how many transport writes and pauses
+			if _, ok := x.ghostDecl["timerWrites"]; ok {
+				if w, ok2 := st.ghost["writes"].(*Term); ok2 {
+					st.ghost["timerWrites"] = w
+				}
+				if sl, ok2 := st.ghost["sleeps"].(*Term); ok2 {
+					st.ghost["timerSleeps"] = sl
+				}
+			}
 			// ghost record of the armed duration (when the property's spec declares the ghosts)
 			if _, ok := x.ghostDecl["timerNs"]; ok {
 				if d, isT := args[0].(*Term); isT && d.sort == BV(64) {
